@@ -241,6 +241,74 @@ theorem lerp_at_node (ts : List ℝ) (cols : List (List ℝ)) (hs : ts.Pairwise 
       field_simp
       ring
 
+
+/-- number of leading entries `< t` of a strictly increasing list, for `ts[i] < t ≤ ts[i+1]` -/
+theorem takeWhile_lt_between (ts : List ℝ) (hs : ts.Pairwise (· < ·)) (i : ℕ) (h : i + 1 < ts.length) (t : ℝ)
+    (h0 : ts[i] < t) (h1 : t ≤ ts[i + 1]) :
+    (ts.takeWhile fun x => decide (x < t)).length = i + 1 := by
+  induction ts generalizing i with
+  | nil => simp at h
+  | cons x xs ih =>
+    rw [List.pairwise_cons] at hs
+    cases i with
+    | zero =>
+      simp only [List.getElem_cons_zero] at h0
+      simp only [List.getElem_cons_succ] at h1
+      simp only [List.length_cons] at h
+      have hx : 0 < xs.length := by omega
+      obtain ⟨y, ys, rfl⟩ := List.exists_cons_of_length_pos hx
+      simp only [List.getElem_cons_zero] at h1
+      simp [h0, not_lt.mpr h1]
+    | succ i =>
+      simp only [List.getElem_cons_succ] at h0 h1
+      have hlen : i + 1 < xs.length := by simpa using h
+      have hx : x < t := lt_trans (hs.1 _ (List.getElem_mem _)) h0
+      simp only [List.takeWhile_cons, hx, decide_true, if_true, List.length_cons]
+      rw [ih hs.2 i hlen h0 h1]
+
+/-- **a query between two stored times is the linear interpolation of the two neighbouring stored columns**
+(no dense output): for `ts[i] < t ≤ ts[i+1]`, entry `k` is
+`(Y[k,i+1] − Y[k,i]) / (ts[i+1] − ts[i]) · (t − ts[i]) + Y[k,i]`, and it lies between the two stored values -/
+theorem lerp_between (ts : List ℝ) (cols : List (List ℝ)) (hs : ts.Pairwise (· < ·)) (hl : cols.length = ts.length)
+    (i : ℕ) (h : i + 1 < ts.length) (t : ℝ) (h0 : ts[i] < t) (h1 : t ≤ ts[i + 1])
+    (k : ℕ) (hk0 : k < (cols[i]'(by omega)).length) (hk1 : k < (cols[i + 1]'(by omega)).length) :
+    ∃ hk : k < (lerp ts cols t).length,
+      (lerp ts cols t)[k] = ((cols[i + 1]'(by omega))[k] - (cols[i]'(by omega))[k]) / (ts[i + 1] - ts[i]) * (t - ts[i]) + (cols[i]'(by omega))[k] ∧
+      min ((cols[i]'(by omega))[k]) ((cols[i + 1]'(by omega))[k]) ≤ (lerp ts cols t)[k] ∧
+      (lerp ts cols t)[k] ≤ max ((cols[i]'(by omega))[k]) ((cols[i + 1]'(by omega))[k]) := by
+  have e : min (max (i + 1) 1) (ts.length - 1) = i + 1 := by omega
+  have hlerp : lerp ts cols t = List.zipWith (fun y0 y1 => (y1 - y0) / (ts[i + 1] - ts[i]) * (t - ts[i]) + y0)
+      (cols[i]'(by omega)) (cols[i + 1]'(by omega)) := by
+    unfold lerp searchLeft
+    rw [takeWhile_lt_between ts hs i h t h0 h1]
+    simp only [e, Nat.add_sub_cancel]
+    rw [getD_eq_getElem' _ _ _ (by omega : i < ts.length), getD_eq_getElem' _ _ _ h,
+      getD_eq_getElem' _ _ _ (by omega : i < cols.length), getD_eq_getElem' _ _ _ (by omega : i + 1 < cols.length)]
+  have hk : k < (lerp ts cols t).length := by
+    rw [hlerp, List.length_zipWith]; omega
+  refine ⟨hk, ?_⟩
+  have hval : (lerp ts cols t)[k] = ((cols[i + 1]'(by omega))[k] - (cols[i]'(by omega))[k]) / (ts[i + 1] - ts[i]) * (t - ts[i]) + (cols[i]'(by omega))[k] := by
+    simp only [hlerp, List.getElem_zipWith]
+  have hlt : ts[i] < ts[i + 1] := List.pairwise_iff_getElem.mp hs i (i + 1) (by omega) h (by omega)
+  refine ⟨hval, ?_, ?_⟩
+  all_goals
+    rw [hval]
+    set a := (cols[i]'(by omega))[k]
+    set b := (cols[i + 1]'(by omega))[k]
+    set w := (t - ts[i]) / (ts[i + 1] - ts[i]) with hw
+    have hd : 0 < ts[i + 1] - ts[i] := by linarith
+    have hw0 : 0 ≤ w := div_nonneg (by linarith) hd.le
+    have hw1 : w ≤ 1 := by rw [hw, div_le_one hd]; linarith
+    have heq : (b - a) / (ts[i + 1] - ts[i]) * (t - ts[i]) + a = (1 - w) * a + w * b := by
+      rw [hw]; field_simp; ring
+    rw [heq]
+  · rcases le_total a b with hab | hab
+    · rw [min_eq_left hab]; nlinarith
+    · rw [min_eq_right hab]; nlinarith
+  · rcases le_total a b with hab | hab
+    · rw [max_eq_right hab]; nlinarith
+    · rw [max_eq_left hab]; nlinarith
+
 /-! ## initial conditions -/
 
 /-- the temperature the integration starts from for a state with declared `(n, kT)` and charge `q` -/
